@@ -31,6 +31,8 @@ GUser ==
   \/ \E x \in Waits, c \in CircIds : CloseC(x, c) /\ H([a |-> "CloseC", x |-> x, id |-> c])
   \/ \E x \in Waits, s \in StreamIds : CloseS(x, s) /\ H([a |-> "CloseS", x |-> x, id |-> s])
   \/ \E x \in Waits, c \in CircIds, p \in Purposes, bf \in 1..2 : Build(x, c, p, bf) /\ H([a |-> "Build", x |-> x, id |-> c, pur |-> p, bf |-> bf])
+  \/ \E x \in Waits, c \in CircIds, p \in Purposes, bf \in 1..2 : Timed /\ TimedBuild(x, c, p, bf) /\ H([a |-> "TimedBuild", x |-> x, id |-> c, pur |-> p, bf |-> bf])
+  \/ \E x \in Waits : BuildTimeout(x) /\ H([a |-> "BuildTimeout", x |-> x])
 GNext ==
   \/ GTor /\ (IF phase = "pre" THEN cnt.pre < MaxPre ELSE cnt.ev < MaxEv)
   \/ Snapshot /\ H([a |-> "Snapshot"])
